@@ -28,7 +28,8 @@ def main():
     seen = []
     for _ in range(2):
         res = mod.run_case(doc["case"])
-        hits = [r[3] for r in res if r[3] is not None and engine.canon(r[3].get("sub")) == want]
+        vs = res.get("violations", []) if isinstance(res, dict) else [r[3] for r in res if r[3] is not None]
+        hits = [x for x in vs if engine.canon(x.get("sub")) == want]
         seen.append(hits)
     if bool(seen[0]) != bool(seen[1]):
         print("BROKEN: replay is not deterministic")
